@@ -11,6 +11,8 @@ POOL = [
     {"svc": 0x1111, "inst": 2, "major": 1, "minor": 7, "egs": []},
     {"svc": 0x2222, "inst": 1, "major": 2, "minor": 0, "egs": [1]},
     {"svc": 0x1111, "inst": 1, "major": 2, "minor": 5, "egs": []},  # same service and instance id as the first, another version
+    # a run of two options whose first equals the single option of the first instance
+    {"svc": 0x3333, "inst": 4, "major": 1, "minor": 0, "egs": [], "opts": [["ep", 4, "10.0.0.1", 17, 30501], ["ep", 4, "10.0.0.1", 6, 30501]]},
 ]
 HELPER = {"svc": 0x5555, "inst": 3, "major": 1, "minor": 2, "opts": [["ep", 4, "10.0.0.1", 17, 30500]]}
 INF_TTL = 0xFFFFFF
@@ -66,7 +68,7 @@ def gen_plan(pid, seed, idx, profile):
     r = rng(seed, pid, idx)
     timings = draw_timings(r)
     n = r.randint(1, 3)
-    insts = [dict(POOL[i]) for i in r.sample(range(4), n)]
+    insts = [dict(POOL[i]) for i in r.sample(range(5), n)]
     if r.random() < 0.25 and n > 1:
         insts[-1]["timings"] = {"CYCLIC_OFFER_DELAY": 0 if timings["CYCLIC_OFFER_DELAY"] else 1}
     cfg = {"instances": insts, "timings": timings, "sock_flip": r.choice([0, 0.5, 1.0])}
